@@ -130,8 +130,13 @@ func getFlt() (*fltEnv, error) {
 		e.upstream = must(StartPeer("upstream", "127.0.0.4", nil, HTTPHandler(scriptedResponder, func(pc *PeerConn, r *RecordedReq) {
 			h, _, _ := net.SplitHostPort(r.Msg.Target)
 			if strings.HasPrefix(h, "reject-") {
-				code, _ := strconv.Atoi(strings.TrimSuffix(strings.TrimPrefix(h, "reject-"), ".test"))
-				body := "upstream says no: " + strconv.Itoa(code) + "\n"
+				parts := strings.SplitN(strings.TrimSuffix(strings.TrimPrefix(h, "reject-"), ".test"), "-", 2)
+				code, _ := strconv.Atoi(parts[0])
+				nonce := ""
+				if len(parts) > 1 {
+					nonce = parts[1]
+				}
+				body := rejectBody(code, nonce)
 				fmt.Fprintf(pc, "HTTP/1.1 %d %s\r\nContent-Type: text/plain\r\nX-Upstream: yes\r\nProxy-Authenticate: Basic realm=\"up\"\r\nContent-Length: %d\r\n\r\n%s", code, "Rejected", len(body), body)
 				return
 			}
@@ -218,6 +223,8 @@ type FltExch struct {
 
 type C12Case struct {
 	Exch FltExch `json:"exch"`
+	// Crowd > 1: that many clients perform the exchange at the same time before it is performed once more alone
+	Crowd int `json:"crowd,omitempty"`
 }
 
 func genFltExch(t *rapid.T) FltExch {
@@ -297,6 +304,7 @@ func genFltExch(t *rapid.T) FltExch {
 // One exchange
 
 type fltOutcome struct {
+	vid      string
 	kind     string // complete | truncated | malformed | timeout | closed (no bytes at all)
 	msg      *Msg
 	err      error
@@ -382,6 +390,11 @@ func (e *fltEnv) exchange(x FltExch, id int64, idx int) (o fltOutcome) {
 	}
 	vid := fmt.Sprintf("%d-%d", id, idx)
 	host := fltHost(x)
+	o.vid = vid
+	if x.Fault == "upstream-reject" {
+		// the rejection names the request it answers: every client must get its own
+		host = fmt.Sprintf("reject-%d-%s.test:443", x.Code, vid)
+	}
 	raw, body, headLen := buildFltReply(x, vid, uint32(id)*13+uint32(idx))
 	o.intended, o.raw, o.headLen = body, raw, headLen
 	sc := &OriginScript{Parts: [][]byte{raw}, CloseAfter: x.Resp.Framing == "eof"}
@@ -631,7 +644,7 @@ func judgeFlt(x FltExch, o fltOutcome) (fails []vstat.Failure) {
 	} else {
 		switch x.Fault {
 		case "upstream-reject":
-			want := "upstream says no: " + strconv.Itoa(x.Code) + "\n"
+			want := rejectBody(x.Code, o.vid)
 			if m.Status != x.Code {
 				fails = append(fails, vstat.Failf(key("reject-status"), "upstream rejected the CONNECT with %d, client got %d: %s", x.Code, m.Status, desc))
 			} else if x.Method != "HEAD" && string(m.Body) != want {
@@ -667,18 +680,54 @@ func (e *fltEnv) probe() error {
 	return nil
 }
 
+// rejectBody is what the upstream proxy says when it rejects a CONNECT: it names the code and the request, and its length
+// differs from request to request.
+func rejectBody(code int, nonce string) string {
+	if nonce == "" {
+		return "upstream says no: " + strconv.Itoa(code) + "\n"
+	}
+	n := 0
+	for _, ch := range nonce {
+		n += int(ch)
+	}
+	return "upstream says no: " + strconv.Itoa(code) + " to " + nonce + " " + strings.Repeat("x", n%37) + "\n"
+}
+
 func runC12(c C12Case) (fails []vstat.Failure) {
 	e, err := getFlt()
 	if err != nil {
 		return []vstat.Failure{vstat.Failf("C12:harness", "environment: %v", err)}
 	}
 	id := caseSeq.Add(1)
+	if c.Crowd > 1 {
+		// the same exchange from several clients at once: every one is judged on its own
+		var mu sync.Mutex
+		var wg sync.WaitGroup
+		for i := 1; i <= c.Crowd; i++ {
+			wg.Add(1)
+			go func(i int) {
+				defer wg.Done()
+				o := e.exchange(c.Exch, id, i)
+				if o.kind == "timeout" {
+					return
+				}
+				f := judgeFlt(c.Exch, o)
+				mu.Lock()
+				fails = append(fails, f...)
+				mu.Unlock()
+			}(i)
+		}
+		wg.Wait()
+		if len(fails) > 3 {
+			fails = fails[:3]
+		}
+	}
 	o := e.exchange(c.Exch, id, 0)
 	if o.kind == "timeout" {
 		st.Inconclusive()
 		o = e.exchange(c.Exch, caseSeq.Add(1), 0)
 	}
-	fails = judgeFlt(c.Exch, o)
+	fails = append(fails, judgeFlt(c.Exch, o)...)
 	if id%8 == 0 || len(fails) > 0 {
 		if err := e.probe(); err != nil {
 			fails = append(fails, vstat.Failf("C12:probe", "after %+v: %v", c.Exch, err))
@@ -693,6 +742,9 @@ func runC12(c C12Case) (fails []vstat.Failure) {
 func classifyC12(c C12Case) (bool, string, []string) {
 	x := c.Exch
 	cls := []string{"route-" + x.Route, "fault-" + x.Fault, "method-" + x.Method, fmt.Sprintf("bodylog=%v", x.BodyLog)}
+	if c.Crowd > 1 {
+		cls = append(cls, "simultaneous-clients")
+	}
 	nt := false
 	if x.Fault == "cut" || x.Fault == "rst" {
 		switch {
@@ -712,7 +764,20 @@ func classifyC12(c C12Case) (bool, string, []string) {
 	return nt, fmt.Sprintf("%+v", x), cls
 }
 
-var propC12 = vstat.Prop[C12Case]{Name: "TestC12Faults", Gen: func(t *rapid.T) C12Case { return C12Case{Exch: genFltExch(t)} }, Run: runC12, Classify: classifyC12, Crashy: true}
+var propC12 = vstat.Prop[C12Case]{Name: "TestC12Faults", Gen: func(t *rapid.T) C12Case {
+	c := C12Case{Exch: genFltExch(t)}
+	odds := 5
+	if c.Exch.Fault == "upstream-reject" {
+		odds = 1 // replies made up by another party than the origin: more often asked for by several clients at once
+	}
+	if rapid.IntRange(0, odds).Draw(t, "crowd") == 0 {
+		c.Crowd = rapid.SampledFrom([]int{2, 4, 16, 16}).Draw(t, "crowdsize")
+		if c.Exch.Fault == "upstream-reject" {
+			c.Crowd *= 4
+		}
+	}
+	return c
+}, Run: runC12, Classify: classifyC12, Crashy: true}
 
 func TestC12Faults(t *testing.T) { propC12.Check(t, st) }
 
